@@ -120,14 +120,25 @@ def one_meaning(P, rep, rows1):
                 return True
         return False
 
+    def name_free(r):
+        """no constant, flag, variable, special name or label (asked through get_expr or through the five getters it consists of), and
+        no alias (get_def, or the defs table itself)"""
+        expr_free = lookup_none(r, "get_expr") or all(lookup_none(r, g_) for g_ in ("get_define", "get_equ", "get_set", "get_special", "get_label"))
+        def_free = lookup_none(r, "get_def")
+        for e, t in r.conds:
+            m = re.match(r"^\([\w:<>, ]*::get\(common_context\*\.defs\b.*\)#d == ([01])\)$", sx.show(e))
+            if m and ((m.group(1) == "1") != t):
+                def_free = True
+        return expr_free and def_free
+
     cont = [r for r in rows1 if r.item == "Label" and r.exit == "loop"]
-    ok = bool(cont) and all(lookup_none(r, "get_expr") and lookup_none(r, "get_def") for r in cont)
+    ok = bool(cont) and all(name_free(r) for r in cont)
     rep.ob("C10.unique|label", ok, "a label is bound only when nothing else has its name (no constant, variable, flag or alias)" if ok else
            "a label is bound without asking whether a constant, variable or alias of that name exists: `.equ foo = 5` next to `foo:` is accepted and every reference silently takes one of the two")
     rows2, _, _ = L.pass2_rows(P)
     dcont = [r for r in rows2 if r.item == "Def" and r.exit == "loop"]
     stores = lambda r: any(e[0] == 'call' and e[1].endswith("::insert") and "defs" in str(e[2][0]) for e in r.events)
-    ok = bool(dcont) and all(stores(r) and lookup_none(r, "get_expr") and lookup_none(r, "get_def") for r in dcont)
+    ok = bool(dcont) and all(stores(r) and name_free(r) for r in dcont)
     bad = [r for r in dcont if not stores(r)]
     rep.ob("C10.unique|def", ok, "every .def line either stores its alias - the name being free - or fails the build" if ok else
            ("a .def line can pass without storing its alias and without an error (%d such paths): the line is ignored, a later use takes the earlier meaning" % len(bad) if bad else
